@@ -260,3 +260,102 @@ Example C03_linked_nonvacuous :
   uncompressed_only_if_independent (Some ex_lprefs) ex_lops.
 Proof. exact (conj ex_lorc_ok (conj (proj1 ex_lsession_val) (conj (proj2 ex_lsession_val) ex_lunc))). Qed.
 (* ================================================================ end of [stream/lnk6] *)
+
+
+(* ---- the block-compressor hypothesis DISCHARGED for independent blocks without dictionary (Proofs/BlkInst.v) ----
+   [blk] is instantiated with the block-compressor models that lz4frame.c calls there: LZ4_compress_fast_extState_fastReset
+   (level < 2), LZ4_compress_HC_extStateHC_fastReset (level 2: LZ4MID; level >= 3: hash chain / optimal parser), each with
+   the capacity srcSize-1 that LZ4F_makeBlock passes, the lz4/lz4hc context before the n-th call being ANY state satisfying
+   the models' context invariants (states_ok; the states a session reaches do: BlkInst.fast_run_ok / mid_run_ok /
+   hc_run_states_ok).  No hypothesis about block compressors is left. *)
+From LZ4V Require Import Model.FastApi Model.HcMidApi Model.HcChainApi Model.HcOptApi.
+From LZ4V Require Import Proofs.BlkInst Proofs.BlkFrameInst.
+
+Theorem C03_roundtrip_indep_discharged : forall level sf sm sh, states_ok sf sm sh ->
+  forall c0 po ms F X,
+  prefs_opt_ok po -> uncompressed_only_if_independent po ms -> len X < U64 ->
+  p_level (eff_prefs po) = level -> p_blockMode (eff_prefs po) = FC_blockIndependent ->
+  session (blk_indep level sf sm sh) c0 po NoDict ms = Some (F, X) ->
+  frame_decode spec_decode false (dict_of NoDict) F = Some (X, []).
+Proof. exact c03_roundtrip_indep. Qed.
+Print Assumptions C03_roundtrip_indep_discharged.
+
+(* the states of a session that starts from fresh contexts form such an oracle (xs n = the n-th block compressed) *)
+Theorem C03_indep_oracle_exists : forall level xs, (forall n, blk_guard (xs n) = true) ->
+  states_ok (fast_run ctx_init level xs) (mid_run hc_init xs) (hc_run_states cc_init (Z.max 3 level) xs).
+Proof. exact fresh_run_states_ok. Qed.
+Print Assumptions C03_indep_oracle_exists.
+
+(* Non-vacuity: a two-block session (block checksums, content checksum) through the instantiated model at levels 0, -3
+   (acceleration 4), 2 (LZ4MID), 9 (hash chain) and 12 (optimal): 108 bytes -> 60-byte frames that the specification decodes *)
+Example C03_indep_discharged_run :
+  let ops := [MUpdate (repeat 97 40 ++ [1;2;3;4;5;6;7;8]); MFlush; MUpdate (concat (repeat [5;6;7;8;9] 12))] in
+  let run := fun l => match session (blk_indep l (fun _ => ctx_init) (fun _ => hc_init) (fun _ => cc_init)) cctx_zero
+                                     (Some (mkPrefs 4 1 1 0 0 1 l 1 0)) NoDict ops with
+                      | Some (F, X) => (length F, match frame_decode spec_decode false [] F with Some (Y, []) => Z.of_nat (length Y) | _ => -1 end)
+                      | None => (0%nat, -1) end in
+  (run 0, run (-3), run 2, run 9, run 12) = ((60%nat, 108), (60%nat, 108), (60%nat, 108), (60%nat, 108), (60%nat, 108)).
+Proof. vm_compute. reflexivity. Qed.
+
+(* ---- linked blocks and dictionaries: the block compressor instantiated with the STREAMING models
+   (Proofs/BlkInstFastLinked.v: LZ4_compress_fast_continue, level < 2, linked blocks with or without dictionary and independent
+   blocks with a CDict; Proofs/BlkInstHcLinked.v: LZ4_compress_HC_continue at levels 3..12, linked blocks, no CDict).
+   The oracle gives, per call, memory / stream context / block address / designated byte history; the instance compresses
+   only when that is consistent with the block and the history the LZ4F model offers (explicit glue between FrameC's
+   lists and the flat memory of the stream models); lorc_ok / horc_ok are the stream invariants of C11. ---- *)
+From LZ4V Require Import Model.Mem Model.FastStream Model.HcTabStream Model.HcOptStream.
+From LZ4V Require Import Proofs.BlkInstFastLinked Proofs.BlkInstHcLinked Proofs.BlkFrameInstLinked.
+
+Theorem C03_roundtrip_fast_stream_discharged : forall level st, (forall n, lorc_ok (st n)) ->
+  forall c0 po dk ms F X,
+  prefs_opt_ok po -> uncompressed_only_if_independent po ms -> len X < U64 ->
+  p_level (eff_prefs po) = level -> level < LZ4HC_CLEVEL_MIN ->
+  session (blk_fast_linked st level) c0 po dk ms = Some (F, X) ->
+  frame_decode spec_decode false (dict_of dk) F = Some (X, []).
+Proof. exact c03_roundtrip_fast_stream. Qed.
+Print Assumptions C03_roundtrip_fast_stream_discharged.
+
+Theorem C03_roundtrip_hc_stream_discharged : forall st, (forall n, horc_ok (st n)) ->
+  forall c0 po dk ms F X,
+  prefs_opt_ok po -> uncompressed_only_if_independent po ms -> len X < U64 ->
+  3 <= p_level (eff_prefs po) -> p_blockMode (eff_prefs po) = 0 -> no_cdict dk ->
+  session (blk_hc_linked st) c0 po dk ms = Some (F, X) ->
+  frame_decode spec_decode false (dict_of dk) F = Some (X, []).
+Proof. exact c03_roundtrip_hc_stream. Qed.
+Print Assumptions C03_roundtrip_hc_stream_discharged.
+
+(* Non-vacuity: a two-block LINKED session whose second block repeats the first, through the instantiated stream models
+   with the oracle of the real states (block 2 compressed by the context block 1 left, both blocks contiguous in memory):
+   93 bytes -> 65 bytes (level 0) / 58 bytes (level 9), decoded by the frame specification with the strict block judgment *)
+Example C03_stream_discharged_run :
+  let b0 := repeat 97 40 ++ [1;2;3;4;5;6;7;8] in
+  let b1 := [9;9;9] ++ repeat 97 30 ++ [1;2;3;4;5;6;7;8;1;2;3;4] in
+  let m := mem_of_list 16 (b0 ++ b1) in
+  let ops := [MUpdate b0; MFlush; MUpdate b1] in
+  let dec := fun r => match r with
+                      | Some (F, X) => (length F, match frame_decode strict_valid false [] F with Some (Y, []) => Z.of_nat (length Y) | _ => -1 end)
+                      | None => (0%nat, -2) end in
+  let r0 := fast_continue m s_init 16 (len b0) (len b0 - 1) 1 in
+  let stf := fun n : nat => match n with O => mkLO m s_init 16 [] | _ => mkLO m (r_ctx r0) (16 + len b0) b0 end in
+  let hc0 := ts_resetStream 9 in
+  let sth := fun n : nat => match n with
+                            | O => mkHO m hc0 16 []
+                            | _ => match os_continue m hc0 16 (len b0) (len b0 - 1) with
+                                   | Some (TRes _ _ _ _ c') => mkHO m c' (16 + len b0) b0
+                                   | None => mkHO m hc0 16 [] end
+                            end in
+  (dec (session (blk_fast_linked stf 0) cctx_zero (Some (mkPrefs 4 0 1 0 0 1 0 1 0)) NoDict ops),
+   dec (session (blk_hc_linked sth) cctx_zero (Some (mkPrefs 4 0 1 0 0 1 9 1 0)) NoDict ops))
+  = ((65%nat, 93), (58%nat, 93)).
+Proof. vm_compute. reflexivity. Qed.
+
+(* level 2 (LZ4MID): linked blocks, dictionaries and CDict through the LZ4MID stream model (Proofs/BlkInstMidLinked.v) *)
+From LZ4V Require Import Model.HcMidStream Proofs.BlkInstMidLinked Proofs.BlkFrameInstMid.
+Theorem C03_roundtrip_mid_stream_discharged : forall st, (forall n, morc_ok (st n)) ->
+  forall c0 po dk ms F X,
+  prefs_opt_ok po -> uncompressed_only_if_independent po ms -> len X < U64 ->
+  p_level (eff_prefs po) = 2 ->
+  session (blk_mid_linked st) c0 po dk ms = Some (F, X) ->
+  frame_decode spec_decode false (dict_of dk) F = Some (X, []).
+Proof. exact c03_roundtrip_mid_stream. Qed.
+Print Assumptions C03_roundtrip_mid_stream_discharged.
